@@ -219,9 +219,9 @@ class JsonResource(Resource):
             else:
                 if feature.containment:
                     containments.append((feature, value))
-                elif owning_feature and feature.eOpposite is not owning_feature:
-                    ereferences.append((feature, value))
-                elif not feature.eOpposite:
+                elif feature.eOpposite is None \
+                        or feature.eOpposite is not owning_feature:
+                    # only the reference back to the container is implied
                     ereferences.append((feature, value))
         self.process_inst(inst, eattributes)
         self.process_inst(inst, containments, owning_feature)
